@@ -165,7 +165,7 @@ def check(run, replay):
     run.extra["rule"] = ("result files with 0-14 findings over 8 (12 with hostile names) file names incl. missing, non-UTF-8 and '*'-terminated sources, 0-3 locations each, "
                          "texts over an alphabet of letters, HTML/XML specials, pre-escaped references, non-ASCII; --source-dir=. or an absolute path. "
                          "non-trivial = a finding row (distinct per report/finding); escape stream: a string with at least one of & < > \" '")
-    ok = run.prove()
+    ok = run.prove(extra_targets=["theories/Html/Run.vo"])
     if not ok:
         run.violation("proof:" + PID, "Properties_C36.vo does not build: " + str(run.proof_error())[:300],
                       {"broken": "proof", "detail": run.proof_error()}, found_input=False)
